@@ -311,9 +311,13 @@ func c13World(t *testing.T, r *simcore.Run) any {
 		case w.srv:
 			if d.Dst.Addr().Unmap() == netip.MustParseAddr(scCliIP).Unmap() {
 				if fp := parseSCION(d.Payload); d.SrcConn.Local().Port() == scEndhost && fp.ok && fp.isUDP {
-					// the forwarder passing on a SCION/UDP packet that names another host: not a
-					// reply, and the property says nothing about it
-					return
+					// the forwarder passing on a SCION/UDP packet that names another host. When that
+					// packet came in from another host it is not a reply, and the property says
+					// nothing about it; when it came from one of the server's own sockets it is the
+					// server's reply on its way out
+					if c := w.net.Delivered(d.Cause); c != nil && (c.SrcConn == nil || c.SrcConn.Host() != w.srv) {
+						return
+					}
 				}
 				// the client sits in another AS: every reply of the server goes back to the
 				// previous hop, never straight to the host named in the SCION header
